@@ -40,6 +40,7 @@ func runLine(line string) (res string) {
 			res = "panic " + panicClass(r)
 		}
 	}()
+	shareCache = map[string]interface{}{} // shared type objects live for one case line (every line replays alone)
 	return h(toks[1:])
 }
 
